@@ -68,6 +68,12 @@ func To(fs http.FileSystem, r *http.Request, to string, replacer httpserver.Repl
 
 	// perform rewrite
 	r.URL.Path = u.Path
+	if !strings.HasPrefix(r.URL.Path, "/") {
+		// a target written without a leading slash still names a path of the
+		// site; leaving it relative would make path-scoped directives that
+		// run later (basicauth, internal, ...) miss it
+		r.URL.Path = "/" + r.URL.Path
+	}
 	if query != "" {
 		// overwrite query string if present
 		r.URL.RawQuery = query
